@@ -551,6 +551,41 @@ def moment_formulas(trees):
     return rows
 
 
+def rolling_sum_updates(tree):
+    """_rolling_sum_or_mean_1d: every statement that touches the running sum or its compensation, in source order
+    ('if <test>' heads included when the test looks at magnitudes / finiteness / emptiness of the window)"""
+    fns = [n for n in tree.body if isinstance(n, ast.FunctionDef) and n.name == "_rolling_sum_or_mean_1d"]
+    if len(fns) != 1:
+        raise Unsupported("_rolling_sum_or_mean_1d not found exactly once")
+    names = ("group_sums", "group_comp", "total", "window_sum")
+    rows = []
+
+    def mentions(node):
+        return any(isinstance(x, ast.Name) and x.id in names for x in ast.walk(node))
+
+    def walk(body):
+        for n in body:
+            if isinstance(n, (ast.Assign, ast.AugAssign)):
+                tg = n.targets[0] if isinstance(n, ast.Assign) else n.target
+                if mentions(tg) or (isinstance(tg, ast.Subscript) and isinstance(tg.value, ast.Name) and tg.value.id == "out" and mentions(n.value)):
+                    rows.append(ast.unparse(n))
+            elif isinstance(n, ast.If):
+                mark = len(rows)
+                rows.append("if " + ast.unparse(n.test))
+                walk(n.body)
+                if n.orelse:
+                    rows.append("else")
+                    walk(n.orelse)
+                if all(r.startswith("if ") or r == "else" for r in rows[mark:]):
+                    del rows[mark:]          # a branch that never touches the sums
+                else:
+                    rows.append("end")
+            elif isinstance(n, (ast.For, ast.While)):
+                walk(n.body)
+    walk(fns[0].body)
+    return [r.replace('"', "'") for r in rows]
+
+
 def gen_tables(trees):
     kern = []
     counters = []
@@ -594,6 +629,8 @@ def gen_tables(trees):
     out.append("(* emas.py: how alpha, the elapsed halflives and the decay factor are computed *)")
     out.append("Definition gen_ema_formulas : list (string * string * string) :=\n  [" + ";\n   ".join(
         '("' + '", "'.join(x.replace('"', "'") for x in r) + '")' for r in ema_formulas(trees["emas"])) + "].\n")
+    out.append("(* numba._rolling_sum_or_mean_1d: the statements that update the running sum and its compensation *)")
+    out.append("Definition gen_rolling_sum_updates : list string :=\n  " + coq_str_list(rolling_sum_updates(trees["numba"])).replace("; ", ";\n   ") + ".\n")
     out.append("(* util.mean_from_sum_count, nanops.nanmean / nanvar / nanstd: their statements in source order *)")
     out.append("Definition gen_moment_formulas : list (string * list string) :=\n  [" + ";\n   ".join(
         f'("{k}", {coq_str_list(v)})' for k, v in moment_formulas(trees)) + "].\n")
